@@ -18,7 +18,7 @@ from simkit.runner import Outcome
 PROPERTY = 'C12'
 LEVEL = 'exploration'
 PLAN = {'quick': [('metric', 3000), ('adhist', 6000), ('adsim', 1500)],
-        'thorough': [('metric', 80000), ('adhist', 200000), ('adsim', 50000)]}
+        'thorough': [('metric', 400000), ('adhist', 1000000), ('adsim', 300000)]}
 TIMEOUT = {'quick': 900, 'thorough': 6 * 3600}
 RULE = ('metric: generated models with 1-3 scalar/vector summaries and an elfi.Distance node '
         '(euclidean, cityblock, chebyshev, sqeuclidean, minkowski p, seuclidean V, mahalanobis '
